@@ -190,6 +190,33 @@ theorem reproof_revives (ord : List Nat → List Nat) (hord : ∀ l x, x ∈ ord
   apply (is_proven_iff_specH ord hord _ hwf k).mpr
   exact ⟨h, ⟨ps, List.mem_cons_self ..⟩, hp⟩
 
+/-- **Stale justifications do not prove.** Whatever happened to `h` before — invalidated directly,
+justifications lost while it was invalid, re-proved any number of times — once every justification
+ever inserted for it has a dead premise, `get_node(h).valid` is false. (The history class of the
+constructive re-proof family of the generator: nothing but the premises of the justifications
+counts, neither the `valid` flag at the time a premise died nor the order of the invalidations.) -/
+theorem stale_justifications_do_not_prove (ord : List Nat → List Nat) (hord : ∀ l x, x ∈ ord l ↔ x ∈ l)
+    (H : List Op) (hwf : WellFormed H) (h : Nat)
+    (hstale : ∀ P ∈ justsFor H h, ∃ q ∈ P, Dead H q) : validB (runH ord H) h = false := by
+  cases hv : validB (runH ord H) h with
+  | false => rfl
+  | true =>
+    obtain ⟨⟨P, hP, hl⟩, _⟩ := (validB_iff ord hord H hwf h).mp hv
+    obtain ⟨q, hq, hd⟩ := hstale P hP
+    exact absurd hd (hl q hq)
+
+/-- **The reverse index never forgets an edge.** After any well-formed history the global reverse
+index (`ProofGraph::dependencies`) lists `h` among the dependents of every premise of every
+justification ever inserted for `h` — also while `h` is invalid (invalidated directly but still
+holding justifications): an invalid node can be re-proved, and then its surviving justifications
+count again, so their premises must still reach it. -/
+theorem reverse_index_complete (ord : List Nat → List Nat) (hord : ∀ l x, x ∈ ord l ↔ x ∈ l)
+    (H : List Op) (hwf : WellFormed H) (h : Nat) (P : List Nat) (hP : P ∈ justsFor H h)
+    (q : Nat) (hq : q ∈ P) : h ∈ depsOf (runH ord H) q := by
+  have hd := (runH_inv ord hord H hwf).deps_ok h P hP q hq
+  unfold depsOf
+  exact List.mem_map.mpr ⟨(q, h), List.mem_filter.mpr ⟨hd, by simp⟩, rfl⟩
+
 /-- Every recursive descent of `propagate_invalidation` (taken only when a justification was
 removed) strictly decreases the number of stored justifications — the reason the recursion of the
 code, which has no depth bound of its own, terminates; it is also what Lean checked to accept the
@@ -298,5 +325,19 @@ example : Proven [.ins 2 0 [1], .ins 1 0 [2]] 1 ∧ ¬ Proven [.inv 2, .ins 2 0 
   · rw [← provenB_iff]; decide
 -- a descent really happens (so `descent_removes_justification` is not vacuous)
 example : (applyOne (run id [.ins 2 0 [1]]) 2 1).2 = true := by decide
+
+-- node 1 with justifications [2] and [3] is invalidated directly, loses [2] while invalid, is re-proved
+-- through 4; then 3 and 4 die in either order: nothing proves it any more (model and specification),
+-- although it was valid in between — `stale_justifications_do_not_prove` on a concrete history
+def exReproof (a b : Nat) : List Op :=
+  [.ins 1 0 [2], .ins 1 0 [3], .inv 1, .inv 2, .ins 1 0 [4], .inv a, .inv b]
+
+example : WellFormed (exReproof 3 4).reverse ∧ WellFormed (exReproof 4 3).reverse := by
+  constructor <;> (rw [← wfB_iff]; decide)
+example : ∀ P ∈ justsFor (exReproof 3 4).reverse 1, ∃ q ∈ P, q ∈ deadSet (exReproof 3 4).reverse := by decide
+example : (runF false id 20 (exReproof 3 4)).map (fun s => validB s 1) = some false ∧
+    (runF false id 20 (exReproof 4 3)).map (fun s => validB s 1) = some false ∧
+    (runF false id 20 ((exReproof 3 4).take 6)).map (fun s => validB s 1) = some true ∧
+    (runF false id 20 ((exReproof 3 4).take 4)).map (fun s => (validB s 1, depsOf s 3)) = some (false, [1]) := by decide
 
 end C17
